@@ -2561,8 +2561,8 @@ class Model:
         1. Characteristics that are dependencies of parameters are updated
         2. Parameters are updated in dependency order
             a. The parameter function is evaluated
-            b. The parameter is overwritten by programs
-            c. The parameter is updated with the population aggregation calculation
+            b. The parameter is updated with the population aggregation calculation
+            c. The parameter is overwritten by programs
             d. The parameter value is constrained
 
         The parameters are updated parameter-at-a-time (across populations) so that the population aggregation
@@ -2605,24 +2605,6 @@ class Model:
                 if par._is_dynamic:
                     par.update(ti)
 
-            # Then overwrite with program values
-            if do_program_overwrite:
-                for par in pars:
-                    if (par.name, par.pop.name) in prog_vals:
-                        if par.derivative:
-                            par._dx = prog_vals[(par.name, par.pop.name)]  # For derivative parameters, overwrite the derivative rather than the value
-                            continue  # The value itself was not overwritten in this step, so there is nothing to convert
-                        else:
-                            par[ti] = prog_vals[(par.name, par.pop.name)]
-
-                        if par.units == FS.QUANTITY_TYPE_NUMBER:
-                            par[ti] *= par.source_popsize(ti) / self.dt  # The outcome in the progbook is per person reached, which is a timestep specific value. Thus, need to annualize here
-                        elif par.units == FS.QUANTITY_TYPE_RATE or par.units == FS.QUANTITY_TYPE_PROBABILITY:
-                            # Continuous programs generally should not target number or probability parameters
-                            # We apply a factor of dt here regardless of the parameter's timescale. This is because the dt factor here
-                            # matches the factor of dt used to divide the annual spending into timestep spending
-                            par[ti] /= self.dt
-
             # Handle parameters that aggregate over populations and use interactions in these functions.
             if pars[0].pop_aggregation:
                 # NB. `par.pop_aggregation` is (agg_fcn,par_name,interaction_name,charac_name) where the last item is optional
@@ -2659,6 +2641,24 @@ class Model:
                 for par, val in zip(pars, par_vals):
                     if par.skip_function is None or (self.t[ti] < par.skip_function[0]) or (self.t[ti] > par.skip_function[1]):  # Careful - note how the < here matches >= in Parameter.update()
                         par[ti] = par.scale_factor * val
+
+            # Then overwrite with program values (after any aggregation over populations, which is this parameter's function: function -> program -> limits)
+            if do_program_overwrite:
+                for par in pars:
+                    if (par.name, par.pop.name) in prog_vals:
+                        if par.derivative:
+                            par._dx = prog_vals[(par.name, par.pop.name)]  # For derivative parameters, overwrite the derivative rather than the value
+                            continue  # The value itself was not overwritten in this step, so there is nothing to convert
+                        else:
+                            par[ti] = prog_vals[(par.name, par.pop.name)]
+
+                        if par.units == FS.QUANTITY_TYPE_NUMBER:
+                            par[ti] *= par.source_popsize(ti) / self.dt  # The outcome in the progbook is per person reached, which is a timestep specific value. Thus, need to annualize here
+                        elif par.units == FS.QUANTITY_TYPE_RATE or par.units == FS.QUANTITY_TYPE_PROBABILITY:
+                            # Continuous programs generally should not target number or probability parameters
+                            # We apply a factor of dt here regardless of the parameter's timescale. This is because the dt factor here
+                            # matches the factor of dt used to divide the annual spending into timestep spending
+                            par[ti] /= self.dt
 
             # Restrict the parameter's value if a limiting range was defined
             for par in pars:
